@@ -133,7 +133,7 @@ def run(cx, rep):
                 if n["type"] == "OptionalChainingExpression" and n["base"].get("property", {}).get("value") == FLAG and s(n["base"]["object"]) != "options":
                     readers.setdefault((cname, mname), []).append(n)
     obj_classes = {cn for cn in fam.classes if any(tsast.type_str(ann).startswith("Record<string,Runtype") for _, (o, ann) in fam.all_fields(cn).items() if ann is not None)
-                   and "indexedPropertiesParser" in fam.all_fields(cn)}
+                   and ts_common.index_signature_field(fam, cn) is not None}
     rep.ob("C11.2", "object-class", len(obj_classes) == 1, "expected exactly one class with declared properties + index signatures, found %s" % sorted(obj_classes), mod.rel)
     for (cname, mname), nodes in sorted(readers.items()):
         ok = cname in obj_classes and mname in ("validate", "reportDecodeError")
@@ -145,7 +145,7 @@ def run(cx, rep):
                 # the read sits in the else-branch of `if (this.indexedPropertiesParser.length > 0)`
                 in_else = False
                 for i in walk(fn):
-                    if i["type"] == "IfStatement" and "indexedPropertiesParser.length" in s(i["test"]) and i.get("alternate") is not None:
+                    if i["type"] == "IfStatement" and ("this.%s.length" % ts_common.index_signature_field(fam, cname)) in s(i["test"]) and i.get("alternate") is not None:
                         if any(x is nd for x in walk(i["alternate"])):
                             in_else = True
                 rep.ob("C11.2", "%s.%s/no-index-signature-branch" % (cname, mname), in_else,
